@@ -241,6 +241,36 @@ def run(ctx, env):
                            ("the loop rebuilds its %s accumulator from itself through %s at every iteration" % (short_ty(ty), sorted(set(hits)))) if hits
                            else "loop-carried %s is extended in place" % short_ty(ty), site=site(sp))
     ctx.count("accumulators_inspected", nacc)
+    # R15.7 allocations on the decode path come from the input, not from the cached template
+    ctx.rule("R15.7", "on the decode path nothing is allocated in proportion to the cached template alone: every collect / to_vec / clone / with_capacity in a hand-written parser under variable_versions takes its size from the input bytes (or a constant) - a per-flowset table built from the template's field list costs (number of flowsets) x (template width) for a buffer of minimal flowsets that decode to nothing")
+    from . import consume as _cons7
+    TEMPLATE_TY = re.compile(r"\b(Template|OptionsTemplate|TemplateField|OptionsTemplateScopeField|V9Parser|IPFixParser)\b")
+    MAKERS = re.compile(r"(^|::)(iter::Iterator::collect|iter::FromIterator::from_iter|slice::<impl \[T\]>::to_vec|borrow::ToOwned::to_owned|clone::Clone::clone|iter::Iterator::cloned|vec::Vec(<.*>)?::with_capacity|vec::Vec(<.*>)?::reserve|vec::from_elem)$")
+    n7 = 0
+    for cbdy in _cons7.cursor_bodies(prog):
+        if not cbdy.path.startswith("variable_versions::") or cbdy.kind == "Closure":
+            continue
+        for blk, t, c in cbdy.calls():
+            if c is None or not (MAKERS.search(c.npath) or MAKERS.search(c.nsyn)) or not t["args"]:
+                continue
+            dty = cbdy.local_ty(t["dest"]["l"]) if t.get("dest") else ""
+            if not (owns_heap(prog, dty) or "with_capacity" in c.npath or "reserve" in c.npath):
+                continue
+            leaves = set()
+            for a in t["args"]:
+                for x in find(an.op(cbdy, a), lambda x: x[0] == "arg"):
+                    leaves.add(x[1])
+            if not leaves:
+                continue
+            n7 += 1
+            tys = {k: cbdy.local_ty(k) for k in leaves if 1 <= k <= cbdy.arg_count}
+            from_input = any("[u8]" in ty for ty in tys.values())
+            only_template = bool(tys) and all(TEMPLATE_TY.search(ty) and "[u8]" not in ty for ty in tys.values())
+            okp = from_input or not only_template
+            ctx.ob("R15.7", cbdy.path, "allocation-from-input:%s" % c.nsyn.rsplit("::", 1)[1], okp,
+                   ("%s at %s builds a %s from %s only - its size follows the cached template, not the bytes being decoded" % (c.nsyn.rsplit("::", 1)[1], cbdy.line(blk), short_ty(dty), sorted(short_ty(x) for x in tys.values())))
+                   if not okp else "sized by the input (or not by a cached template alone)", site=cbdy.line(blk))
+    ctx.count("decode_path_allocations", n7)
     # R15.5
     from .cache import GET as _GET, PARSER_ADTS as _PADTS
     ncl = 0
